@@ -118,27 +118,51 @@ type ChildOutput struct {
 type child struct {
 	in      *ChildInput
 	out     *ChildOutput
-	regions []c08.Region
-	keep    []interface{} // keeps walked structures alive so that addresses stay meaningful
-	seen    int           // race reports in the log so far
-	origins map[int]*Mismatch
+	seen     int // race reports in the log so far
+	origins  map[int]*Mismatch
+	resolved map[int]resolved
 }
 
 // attribute assigns the race reports that appeared in the log since the last
-// call to the job that just ran (its program, data and configuration).
-func (c *child) attribute(job *Mismatch) {
+// call to the job that just ran (its program, data and configuration), and
+// resolves their addresses against that job's bundle NOW, while it is alive:
+// later allocations may reuse the addresses of bundles that have been freed.
+func (c *child) attribute(job *Mismatch, inst *c08.Instance) {
 	prefix := os.Getenv("C09_RACELOG")
 	if prefix == "" {
 		return
 	}
-	n := strings.Count(ReadRaceLogs(prefix), "WARNING: DATA RACE")
+	text := ReadRaceLogs(prefix)
+	n := strings.Count(text, "WARNING: DATA RACE")
+	if n == c.seen {
+		return
+	}
 	if c.origins == nil {
 		c.origins = map[int]*Mismatch{}
+		c.resolved = map[int]resolved{}
 	}
+	var regs []c08.Region
+	if inst != nil {
+		_, regs = c08.DigestWithRegions(append(inst.SharedRoots(), inst.CallerRoots()...)...)
+	}
+	reports := ParseRaceLog(text)
 	for i := c.seen; i < n; i++ {
 		c.origins[i] = job
+		if i < len(reports) {
+			for _, a := range reports[i].Accesses {
+				if f, d := c08.Resolve(regs, uintptr(a.Addr)); f != "" {
+					c.resolved[i] = resolved{f, d}
+					break
+				}
+			}
+		}
 	}
 	c.seen = n
+}
+
+type resolved struct {
+	field string
+	depth int
 }
 
 // RunChild is the entry point of the child process; it never returns.
@@ -180,11 +204,8 @@ func RunChild(inPath, outPath string) {
 			r.classify()
 			r.Phase = in.Phase
 			r.Origin = c.origins[i]
-			for _, a := range r.Accesses {
-				if f, d := c08.Resolve(c.regions, uintptr(a.Addr)); f != "" {
-					r.AddrIn, r.depth = f, d
-					break
-				}
+			if rs, ok := c.resolved[i]; ok {
+				r.AddrIn, r.depth = rs.field, rs.depth
 			}
 		}
 		unifyBySite(reports)
@@ -203,13 +224,6 @@ func (c *child) toolErr(format string, a ...interface{}) {
 	if len(c.out.ToolErrors) < 10 {
 		c.out.ToolErrors = append(c.out.ToolErrors, fmt.Sprintf(format, a...))
 	}
-}
-
-// remember records where the fields of inst's shared structures live.
-func (c *child) remember(inst *c08.Instance) {
-	_, regs := c08.DigestWithRegions(append(inst.SharedRoots(), inst.CallerRoots()...)...)
-	c.regions = append(c.regions, regs...)
-	c.keep = append(c.keep, inst)
 }
 
 func agrees(e Expect, o c08.Obs) bool {
@@ -310,9 +324,8 @@ func (c *child) forced() {
 			if si == len(fam.Scheds)/2 && len(c.out.Samples) < 4 {
 				c.out.Samples = append(c.out.Samples, map[string]interface{}{"cfg": fam.Cfg.Name, "files": fam.Inputs.Files, "cases": cases, "schedule": sc.S, "expected": sc.O})
 			}
-			if si%97 == 0 {
-				c.remember(inst)
-			}
+			c.attribute(&Mismatch{Kind: "forced", Family: "race-detector", Cfg: fam.Cfg, Inputs: fam.Inputs, Cases: cases, Schedule: sc.S,
+				What: "forced schedule of the model's family"}, inst)
 			for g := range cases {
 				if !agrees(sc.O[g], obs[g]) {
 					m := Mismatch{Kind: "forced", Family: "concurrent-bytes", Cfg: fam.Cfg, Inputs: fam.Inputs, Cases: cases, Schedule: sc.S,
@@ -324,7 +337,6 @@ func (c *child) forced() {
 				}
 			}
 		}
-		c.attribute(&Mismatch{Kind: "forced", Family: "race-detector", Cfg: fam.Cfg, Inputs: fam.Inputs, What: "forced schedules of the model's family"})
 		if err := restore(); err != nil {
 			c.toolErr("%v", err)
 		}
@@ -393,9 +405,8 @@ func (c *child) randomForced() {
 			if switches(run.Actual) >= 2 {
 				c.out.Distinct = append(c.out.Distinct, schedKey(cfg.Name+"/"+in.Files[0].Text, nil, run.Actual)+fmt.Sprint(cases))
 			}
-			if k == 0 && b%7 == 0 {
-				c.remember(inst)
-			}
+			c.attribute(&Mismatch{Kind: "forced", Family: "race-detector", Cfg: cfg, Inputs: in, Cases: cases, Schedule: run.Actual,
+				What: "sampled schedule over a generated bundle"}, inst)
 			for gi := range cases {
 				f := fresh[c08.Op{Op: "render", T: cases[gi].T, D: cases[gi].D}.Key()]
 				if obs[gi].Err != f.Err || obs[gi].Out != f.Out {
@@ -520,19 +531,18 @@ func (c *child) stress() {
 			first.Diff = c08.FirstDiff(before, c08.DigestOf(inst.SharedRoots()...))
 			c.addMismatch(*first)
 		}
-		c.remember(inst)
 		var all []Case
 		for _, o := range j.ops[:j.nR] {
 			all = append(all, Case{o.T, o.D})
 		}
 		c.attribute(&Mismatch{Kind: "stress", Family: "race-detector", Cfg: j.cfg, Inputs: j.in, Cases: all,
-			What: fmt.Sprintf("%d goroutines x %d renders of one bundle, then concurrent soyjs.Write", G, R)})
+			What: fmt.Sprintf("%d goroutines x %d renders of one bundle, then concurrent soyjs.Write", G, R)}, inst)
 		if err := restore(); err != nil {
 			c.toolErr("%v", err)
 		}
 	}
 	c.compileStress(r, G, R/10+1)
-	c.attribute(&Mismatch{Kind: "stress-compile", Family: "race-detector", What: "concurrent compilation of independent bundles"})
+	c.attribute(&Mismatch{Kind: "stress-compile", Family: "race-detector", What: "concurrent compilation of independent bundles"}, nil)
 }
 
 // Op8 is c08's operation type.
@@ -605,7 +615,7 @@ func (c *child) replay(m *Mismatch) {
 			c.toolErr("%v", err)
 			return
 		}
-		c.remember(inst)
+		c.attribute(m, inst)
 		c.out.ForcedRuns++
 		if run.InSync {
 			c.out.ForcedInSync++
